@@ -34,7 +34,7 @@ PROPERTY = 'C17'
 LEVEL = 'exploration'
 
 REPL = ('', 'X', 'ab', 'a', '"é')
-VALS = (0, 7, -2, 1.5, 3.0, True, False)     # 3.0: a whole float is "3"
+VALS = (0, 7, -2, 1.5, 3.0, -0.0, True, False)   # 3.0 is "3", -0.0 is "0"
 
 # tier -> route -> sizes.  L: longest text; find: (needle lengths, longest
 # text) blocks; repl: longest text for REPLACE.
